@@ -1264,7 +1264,16 @@ def op_envelope(M, ch, tr, st, started, top, top_sig, ops):
     doappend = [2, 0, 1, 3][ch.draw(4, "doappend")]
     use_merge = ch.flip(1, 2, "use_merge")
     with_case_order = ch.flip(1, 3, "case_order")
-    sig = (tuple(e.name for e in order), levels)
+    # merge() may rename events on the way in
+    renamed = set()
+    if use_merge and ch.flip(1, 3, "rename_on_merge"):
+        renamed = {e.name for e in order if ch.flip(1, 2, "rename_this")}
+        if renamed:
+            st.fault("merge_rename")
+    for e in order:
+        e.tkey = e.name + "_renamed" if e.name in renamed else e.name
+    rename_dict = {n: n + "_renamed" for n in sorted(renamed)} if renamed else None
+    sig = (tuple(e.tkey for e in order), levels)
     # build (or reuse) the tree
     if top is not None and top_sig == sig:
         st.fault("stale_extreme_rebuild")
@@ -1274,27 +1283,29 @@ def op_envelope(M, ch, tr, st, started, top, top_sig, ops):
         with _Sut("DR_Results.merge"):
             if levels == 1:
                 if use_merge:
-                    got = tree.merge([e.res for e in order])
-                    if got != [e.name for e in order]:
-                        raise Violation("merge_names_wrong", "DR_Results.merge", got=got, expected=[e.name for e in order])
+                    got = tree.merge([e.res for e in order], rename_dict)
+                    if got != [e.tkey for e in order]:
+                        raise Violation("merge_names_wrong", "DR_Results.merge", got=got, expected=[e.tkey for e in order])
                 else:
                     for e in order:
-                        tree[e.name] = e.res
+                        tree[e.tkey] = e.res
             else:
                 cut = 1 + ch.draw(len(order) - 1, "cut")
                 for gname, grp in (("G0", order[:cut]), ("G1", order[cut:])):
                     g = cla.DR_Results()
                     if use_merge:
-                        g.merge([e.res for e in grp])
+                        g.merge((e.res for e in grp), rename_dict)  # any iterable will do
                     else:
                         for e in grp:
-                            g[e.name] = e.res
+                            g[e.tkey] = e.res
                     tree[gname] = g
+        if list(k for k in tree if k != "extreme") != ([e.tkey for e in order] if levels == 1 else ["G0", "G1"]):
+            raise Violation("merge_names_wrong", "DR_Results.merge", got=list(tree), expected=[e.tkey for e in order])
     groups = None
     if levels == 2:
-        groups = {g: [e for e in order if e.name in tree[g]] for g in ("G0", "G1")}
+        groups = {g: [e for e in order if e.tkey in tree[g]] for g in ("G0", "G1")}
     case_order = None
-    top_keys = [e.name for e in order] if levels == 1 else ["G0", "G1"]
+    top_keys = [e.tkey for e in order] if levels == 1 else ["G0", "G1"]
     if with_case_order:
         case_order = [top_keys[i] for i in ch.perm(len(top_keys), "case_order_perm")]
         if len(case_order) > 1 and ch.flip(1, 3, "case_order_subset"):
@@ -1302,14 +1313,14 @@ def op_envelope(M, ch, tr, st, started, top, top_sig, ops):
     with _Sut("DR_Results.form_extreme"):
         tree.form_extreme(ext_name="ENV", case_order=case_order, doappend=doappend)
     used_keys = case_order if case_order is not None else top_keys
-    ops.append(f"envelope {[e.name for e in order]} levels={levels} doappend={doappend} case_order={case_order} reuse={tree is top}")
-    tr.shape("envelope", [e.idx for e in order], levels, doappend, case_order, tree is top)
+    ops.append(f"envelope {[e.tkey for e in order]} levels={levels} doappend={doappend} case_order={case_order} reuse={tree is top}")
+    tr.shape("envelope", [e.idx for e in order], levels, doappend, case_order, tree is top, sorted(renamed))
     if len(order) >= 2:
         st.fault("envelope_multi_event")
 
     def contributors(key):
         if levels == 1:
-            return [e for e in order if e.name == key]
+            return [e for e in order if e.tkey == key]
         return groups[key]
 
     # top-level envelope over the keys used
@@ -1317,8 +1328,8 @@ def op_envelope(M, ch, tr, st, started, top, top_sig, ops):
     check_envelope(M, st, tree["extreme"], used_keys, {k: contributors(k) for k in used_keys}, doappend, levels, "top", "ENV")
     if levels == 2:
         for g in ("G0", "G1"):
-            keys = [e.name for e in groups[g]]
-            check_envelope(M, st, tree[g]["extreme"], keys, {e.name: [e] for e in groups[g]}, doappend, 1, "group", g)
+            keys = [e.tkey for e in groups[g]]
+            check_envelope(M, st, tree[g]["extreme"], keys, {e.tkey: [e] for e in groups[g]}, doappend, 1, "group", g)
         # stale entries must have been replaced, not accumulated
     # forming envelopes must leave the events' own tables alone
     for e in order:
@@ -1332,7 +1343,8 @@ def _labels_for(doappend, levels, which, key, ev, case_label):
         # one level above the base events
         return {0: key, 1: f"{key},{case_label}", 2: key, 3: case_label}[doappend]
     # top of a two-level tree: key is the group, below it the event
-    return {0: key, 1: f"{key},{ev.name},{case_label}", 2: f"{key},{ev.name}", 3: case_label}[doappend]
+    ek = getattr(ev, "tkey", ev.name)
+    return {0: key, 1: f"{key},{ek},{case_label}", 2: f"{key},{ek}", 3: case_label}[doappend]
 
 
 def check_envelope(M, st, ext, keys, contrib, doappend, levels, which, ext_name):
@@ -1570,6 +1582,6 @@ ASSUMPTIONS = [
     "sampling of histories: a clean batch is evidence, not proof",
 ]
 EXPECTED_FAULTS = [
-    "psd_domain", "clock_jump_backwards", "clock_jump_forwards", "external_maxmin", "mixed_abscissa", "model_varies_between_events", "zero_force_psd_row", "nan_cells", "ties", "ties_quantised", "one_column_ext", "label_mismatch", "j_out_of_order", "interleaved_events", "view_drfunc",
+    "psd_domain", "clock_jump_backwards", "clock_jump_forwards", "external_maxmin", "merge_rename", "mixed_abscissa", "model_varies_between_events", "zero_force_psd_row", "nan_cells", "ties", "ties_quantised", "one_column_ext", "label_mismatch", "j_out_of_order", "interleaved_events", "view_drfunc",
     "cache_reuse", "cache_reuse_repeat_uf", "stale_extreme_rebuild", "shared_DR_Event", "envelope_multi_event", "split_merge", "calc_ext",
 ]
